@@ -110,7 +110,12 @@ def run(ctx):
                     called = respell(name)
                     key = (called, idx) if indexed else called
                     moving = [occ[idx]] if indexed else list(occ)
-                    if op in ("before", "after"):
+                    if op in ("before", "after") and rng.random() < 0.12:
+                        # a reference field the paragraph does not have: KeyError, and nothing has moved
+                        ops.append([pi, "order_" + op, list(key) if indexed else key, "No-Such-Field"])
+                        exp_exc = KeyError
+                        getattr(p, "order_" + op)(key, "No-Such-Field")
+                    elif op in ("before", "after"):
                         rname = rng.choice(names)
                         rocc = m.occ(pi, rname)
                         rindexed = rng.random() < 0.4
